@@ -89,7 +89,7 @@ def _is_fresh(fa, n, name: str) -> bool:
         if o.kind == "call" and isinstance(o.node, ast.Call):
             fn = o.node.func
             txt = unparse(fn)
-            if isinstance(fn, ast.Name) and (fn.id[:1].isupper() or fn.id in ("dict", "list", "set", "object", "type")):
+            if isinstance(fn, ast.Name) and (fn.id.lstrip("_")[:1].isupper() or fn.id in ("dict", "list", "set", "object", "type")):
                 continue
             if txt in ("cls", "self.__class__", "super().__new__", "object.__new__", "cls.__new__") or txt.endswith(".__new__"):
                 continue
@@ -97,6 +97,42 @@ def _is_fresh(fa, n, name: str) -> bool:
                 continue
         return False
     return True
+
+
+_PER_CALL_MEMO: Dict[Tuple[int, str], bool] = {}
+
+
+def _per_call_class(run, c) -> bool:
+    """a plain helper class (no bases in the repo's shared families) every instance of which is created inside a function
+    and bound to a local there: its instances live for one call"""
+    key = (id(run.repo), c.ref if hasattr(c, "ref") else c.name)
+    if key in _PER_CALL_MEMO:
+        return _PER_CALL_MEMO[key]
+    sites = 0
+    ok = not [b for b in c.base_names if b not in ("object",)]
+    if ok:
+        for f in run.repo.all_functions():
+            if f.module is not c.module:
+                continue
+            for st in ast.walk(f.node):
+                if not isinstance(st, ast.stmt) or isinstance(st, (ast.FunctionDef, ast.AsyncFunctionDef, ast.ClassDef)):
+                    continue
+                # the expressions of this statement itself (not of the statements nested in it)
+                heads = [v for k, v in ast.iter_fields(st) if k not in ("body", "orelse", "finalbody", "handlers")]
+                exprs = []
+                for h in heads:
+                    for y in (h if isinstance(h, list) else [h]):
+                        if isinstance(y, ast.AST):
+                            exprs.extend(ast.walk(y))
+                for x in exprs:
+                    if isinstance(x, ast.Call) and isinstance(x.func, ast.Name) and x.func.id == c.name:
+                        sites += 1
+                        if not (isinstance(st, ast.Assign) and st.value is x and len(st.targets) == 1
+                                and isinstance(st.targets[0], ast.Name)):
+                            ok = False
+    res = bool(ok and sites)
+    _PER_CALL_MEMO[key] = res
+    return res
 
 
 def classify(run, cg, w: Write) -> Tuple[str, str]:
@@ -127,6 +163,8 @@ def classify(run, cg, w: Write) -> Tuple[str, str]:
             return "shared", f"{'class object' if root != 'self' or is_meta else c.name + ' instance'}"
         if f.name in ("__init__", "__new__", "__set_name__"):
             return "confined", "object under construction"
+        if root == "self" and _per_call_class(run, c):
+            return "confined", f"{c.name} instances are created per call and bound to a local"
         return "shared", f"instance of {c.name} (not known to be per-call)"
     if root in PER_CALL_VARS:
         return "confined", f"`{root}` is a per-call object by convention"
